@@ -1,5 +1,10 @@
-/- line protocol for the `mint` engine -/
+/- line protocol for the `mint` engine
+  reset <start> <period> <factor> <staking> <pool> <dev> <comm> <provisions> <vesting> <weight:community>…
+  epoch <n>
+  exportimport <GenesisEpochProvisions raw Dec>   -> ok prov=… last=…   (C19: x/mint ExportGenesis -> InitGenesis, `Det.mintInit (Det.mintExport g0 p s)`:
+                                                     the provisions become the genesis value, everything else is kept) -/
 import OsmoVerif.Model.Mint
+import OsmoVerif.Model.Det
 namespace OsmoVerif.Mint
 
 structure DrvState where
@@ -37,6 +42,12 @@ def stepMint (st : DrvState) (op : String) (args : List String) : DrvState × St
       | some (s', some o) =>
         ({ st with s := s' },
          s!"ok minted={o.minted} staking={o.staking} pool={o.pool} dev={o.dev} comm={o.communityRemainder} paid={showList o.paid} supply={o.supplyDelta} mintacct={o.mintAccountAfter} vest={s'.devVesting} prov={s'.provisions} last={s'.lastReduction}")
+  | "exportimport", [g0] =>
+    match g0.toInt? with
+    | some g0 =>
+      let r := Det.mintInit (Det.mintExport g0 st.p st.s) st.s.devVesting
+      ({ p := r.1, s := r.2 }, s!"ok prov={r.2.provisions} last={r.2.lastReduction}")
+    | none => (st, "bad-op")
   | _, _ => (st, "bad-op")
 
 end OsmoVerif.Mint
